@@ -69,3 +69,49 @@ fn vf_show_addressing_and_selection() {
     if !r.status.success() || !slot.ends_with("/run/1") { bad += 1; println!("VF-FAIL `result show` after 4 runs with 3 retained :: exit ok={}, the document shown belongs to slot {:?}; the most recent run is in slot 1 (C12)", r.status.success(), slot); }
     println!("VF-SUMMARY test=show_addressing_and_selection checked={} nontrivial={} bad={}", checked, checked, bad);
 }
+
+// C12: `result show` returns the document the most recent completed run printed - whatever that run looked like: no target to run at all
+// (a checkpoint exists and nothing changed since), a failing command followed by a skipped one, commands no target defines.
+#[test]
+fn vf_result_show_is_what_the_run_printed() {
+    let td = tempfile::tempdir().unwrap();
+    let root = td.path();
+    let git = |args: &[&str]| { let o = Command::new("git").current_dir(root).args(args).output().unwrap(); assert!(o.status.success(), "finder set-up: git {:?}", args); };
+    git(&["init", "-q", "."]); git(&["config", "user.email", "a@b"]); git(&["config", "user.name", "n"]);
+    for (t, body) in [("t1", "echo ok"), ("t2", "exit 3")] {
+        let p = root.join(t).join("monorail/cmd/build.sh");
+        std::fs::create_dir_all(p.parent().unwrap()).unwrap();
+        std::fs::write(&p, format!("#!/bin/sh\n{}\n", body)).unwrap();
+        let mut perm = std::fs::metadata(&p).unwrap().permissions(); perm.set_mode(0o755); std::fs::set_permissions(&p, perm).unwrap();
+    }
+    std::fs::write(root.join(".gitignore"), "monorail-out/\n").unwrap();
+    let (lp, kp) = (free_port(), free_port());
+    let cfg = root.join("Monorail.json");
+    std::fs::write(&cfg, format!("{{\"targets\":[{{\"path\":\"t1\"}},{{\"path\":\"t2\"}}],\"server\":{{\"log\":{{\"port\":{}}},\"lock\":{{\"port\":{}}}}}}}", lp, if kp == lp { kp + 1 } else { kp })).unwrap();
+    git(&["add", "-A"]); git(&["commit", "-q", "-m", "c1"]);
+    let mono = |args: &[&str]| Command::new(BIN).current_dir(root).arg("-f").arg(&cfg).args(args).output().unwrap();
+    let (mut checked, mut bad) = (0u64, 0u64);
+    let shapes: Vec<(&str, Vec<&str>, bool)> = vec![
+        ("a run of one succeeding target", vec!["run", "-c", "build", "-t", "t1"], false),
+        ("a failing command followed by a command that is skipped", vec!["run", "-c", "build", "lint", "-t", "t2"], false),
+        ("commands that no target defines", vec!["run", "-c", "nosuch", "-t", "t1", "t2"], false),
+        ("a run with nothing to do: a checkpoint exists and nothing has changed since", vec!["run", "-c", "build"], true),
+    ];
+    for (what, args, needs_cp) in shapes {
+        checked += 1;
+        if needs_cp { let u = mono(&["checkpoint", "update"]); assert!(u.status.success(), "finder set-up: checkpoint update failed: {}", String::from_utf8_lossy(&u.stdout)); }
+        let r = mono(&args);
+        // the printed form carries the time of printing beside the document
+        let strip = |v: Option<serde_json::Value>| v.map(|mut x| { if let Some(o) = x.as_object_mut() { o.remove("timestamp"); } x });
+        let printed: Option<serde_json::Value> = strip(serde_json::from_slice(&r.stdout).ok());
+        let s = mono(&["result", "show"]);
+        let shown: Option<serde_json::Value> = strip(serde_json::from_slice(&s.stdout).ok());
+        if printed.is_none() { bad += 1; println!("VF-FAIL {} (`monorail {}`) :: the run printed no document (exit {:?}) (C12)", what, args.join(" "), r.status.code()); continue; }
+        if !s.status.success() || shown != printed {
+            bad += 1;
+            println!("VF-FAIL {} (`monorail {}`), then `result show` :: exit ok={}, shows {}; the run printed {} (C12)", what, args.join(" "), s.status.success(),
+                String::from_utf8_lossy(&s.stdout).chars().take(160).collect::<String>().replace('\n', " "), String::from_utf8_lossy(&r.stdout).chars().take(160).collect::<String>().replace('\n', " "));
+        }
+    }
+    println!("VF-SUMMARY test=result_show_is_what_the_run_printed checked={} nontrivial={} bad={}", checked, checked, bad);
+}
